@@ -545,7 +545,7 @@ theorem cache_transparent_full {cfg : Cfg} {P : Params α} {rank : Key → Nat}
     (req : Req) (hreq : ∀ k ∈ req.flat, k ∈ cfg.results) :
     nestedGet s'.st.cache.get? req = nestedGet (fun k => some (C01.den cfg P rank k)) req := by
   have hden := C01.den_fixpoint cfg P rank h
-  obtain ⟨st1, h1, h2⟩ := startState_ok { cfg with g := patchGraph cfg.g store } (patchParams P store)
+  obtain ⟨st1, h1, h2, _⟩ := startState_ok { cfg with g := patchGraph cfg.g store } (patchParams P store)
     (patch_isDen hden hsound) (patch_graphOK hG store)
   rw [hst] at h1
   cases h1
